@@ -9,6 +9,9 @@ for pid in ALL:
     try:
         m = importlib.import_module("props." + pid)
         cl = m.CLAIM
+        import vlib
+        if not vlib.props_theorems(pid):
+            raise RuntimeError("no theorem pinned yet")
     except Exception as e:
         na.append({"property_id": pid, "reason": "check not built yet in this revision (model and theorems planned in DESIGN.md section 6); not a claim that the technique cannot apply"})
         continue
